@@ -123,7 +123,8 @@ func (h *eventHandler) ensureDeploymentsMatchGateways(ctx context.Context, logge
 	}
 
 	for nsname := range h.provisions {
-		if _, exist := h.store.gateways[nsname]; exist {
+		// a Gateway that still exists but no longer belongs to the configured class must lose its deployment too
+		if gw, exist := h.store.gateways[nsname]; exist && string(gw.Spec.GatewayClassName) == h.gcName {
 			continue
 		}
 
